@@ -251,6 +251,7 @@ func framingRules(p *Prog, r *Report, R string) {
 			r.Check(okOrder, R, f.Name+"/order", ap.Pos(p), "prefix, Header, Body appended in order", "the frame is not prefix‖Header‖Body: "+argsOf(ap))
 			wr := f.Ev("call", "Conn.Write")
 			r.Check(len(wr) == 1, R, f.Name+"/one-write", wr.Pos(p), "one Write of the whole frame", "the frame is not written with one Write")
+			q.NilReturnsPass(R, f.Name+"/success-means-written", f, wr, "every nil return has written the frame", "Send can return nil without writing the frame: the message is silently not sent")
 		} else {
 			// net.Buffers{prefix, Header, Body}
 			var seg []string
@@ -268,6 +269,7 @@ func framingRules(p *Prog, r *Report, R string) {
 			r.Check(okOrder, R, f.Name+"/order", f.Pos(), "segments are prefix, Header, Body — each once, in that order", fmt.Sprintf("the frame is not prefix‖Header‖Body each exactly once: segments %v", seg))
 			wt := f.Ev("call", "net.(*Buffers).WriteTo")
 			r.Check(len(wt) == 1 && len(wt[0].Guard) == 0, R, f.Name+"/one-write", wt.Pos(p), "one vectored write of the whole frame", "the frame is not written by one WriteTo")
+			q.NilReturnsPass(R, f.Name+"/success-means-written", f, wt, "every nil return has written the frame", "Send can return nil without writing the frame (e.g. a shortcut for an empty message): the message is silently not sent")
 		}
 	}
 	for _, t := range []string{"conn", "connipc"} {
@@ -331,6 +333,7 @@ func wsRules(p *Prog, r *Report, R string) {
 	if sd.OK() {
 		wm := sd.Ev("call", "websocket.(*Conn).WriteMessage")
 		r.Check(len(wm) == 1 && len(wm[0].Guard) == 0 && wm[0].Args[1] == "recv.dtype", R, "ws.Send/one-frame", wm.Pos(p), "exactly one WriteMessage of the pipe's data type per send", "ws Send does not write exactly one frame of type w.dtype: "+argsOf(wm))
+		q.NilReturnsPass(R, "ws.Send/success-means-written", sd, wm, "every nil return has written the frame", "ws Send can return nil without writing a frame: the message is silently not sent")
 		ap := sd.Ev("call", "append")
 		okc := len(ap) == 2 && strings.HasSuffix(ap[0].Args[1], "arg1.Header") && ap[1].Args[1] == "arg1.Body" && strings.HasPrefix(ap[1].Args[0], "append(")
 		r.Check(okc, R, "ws.Send/header-then-body", ap.Pos(p), "payload = Header‖Body", "the websocket payload is not Header followed by Body: "+argsOf(ap))
@@ -567,4 +570,55 @@ func recvLength(p *Prog, f *F) (string, Sel, string) {
 		}
 	}
 	return "", rd, "no complete 8-byte big-endian read found: " + argsOf(rd)
+}
+
+// headerSplitOrder: wherever a receiver moves the leading word(s) of the body into the
+// header with the two statements  m.Header = m.Body[:k] ; m.Body = m.Body[k:]  (same basic
+// block), the header is taken first: in the other order the header is the SECOND word of
+// what arrived (a wrong request/survey id or hop count) and the first k bytes are lost.
+func headerSplitOrder(p *Prog, r *Report, R string, inPkg func(rel string) bool) {
+	n := 0
+	for _, fn := range p.Funcs {
+		rel, _ := p.FuncRel(fn)
+		if !inPkg(rel) {
+			continue
+		}
+		for _, b := range fn.Blocks {
+			var hs, bs *ssa.Store
+			for _, in := range b.Instrs {
+				st, ok := in.(*ssa.Store)
+				if !ok {
+					continue
+				}
+				fa, ok := st.Addr.(*ssa.FieldAddr)
+				if !ok || !isMsgPtr(fa.X.Type()) {
+					continue
+				}
+				sl, ok := st.Val.(*ssa.Slice)
+				if !ok {
+					continue
+				}
+				mv, fld := derivedFromMsg(sl)
+				if mv == nil || fld != "Body" || Desc(mv) != Desc(fa.X) {
+					continue
+				}
+				switch fieldName(fa.X.Type(), fa.Field) {
+				case "Header":
+					if sl.Low == nil && sl.High != nil && hs == nil {
+						hs = st
+					}
+				case "Body":
+					if sl.Low != nil && sl.High == nil && bs == nil {
+						bs = st
+					}
+				}
+			}
+			if hs == nil || bs == nil {
+				continue
+			}
+			n++
+			r.Check(instrIndex(hs) < instrIndex(bs), R, p.FuncName(fn)+"/header-before-advance", p.InstrPos(hs), "the header is taken from the body as received, then the body is advanced", "the body is advanced before the header is taken from it: the header is the second word of what arrived and the first is lost")
+		}
+	}
+	r.Count("wire.header_splits", n)
 }
